@@ -140,7 +140,7 @@ NA.pop("C18", None)
 CHECKS["C04"] = (
     "other",
     "static analysis: RANDOM / write-effect summaries over every geometry kind's transform entry points; algebraic abstract interpretation (sympy polynomial identities) of flips_winding, transform_points and the translation / scale matrix builders; canonical-form (reaching-definition inlined) structural rules; cache-surgery simulation shared with C01 / C14",
-    "Decides for every matrix and every geometry kind the structural half of covariance: the transformed geometry is a function of the matrix alone (flips_winding's random sample cancels: its projection is det(M)|n|^2 over positive norms, proven as a polynomial identity for symbolic samples); transform_points is exactly p -> M.p + t in 2D / 3D (so composition and inverse laws hold in exact arithmetic for point-like kinds); apply_translation / apply_scale build exactly [I|t] / diag(s,1) and funnel through apply_transform; mesh / point cloud / path store transform_points(own points, M); faces are re-wound exactly under flips_winding(M) (and linear part != I); shortcuts test the whole matrix at <= 1e-8 with a max-norm allclose; scene / voxel / primitive left-multiply; a transform writes positions, winding and centre of mass only; no memo entry that depends on what moved survives. Floating-point closeness, volume / area / inertia scaling values (C03) and primitive re-parameterisation under scale (C15) are not decided.",
+    "Decides for every matrix and every geometry kind the structural half of covariance: the transformed geometry is a function of the matrix alone (flips_winding's random sample cancels: its projection is det(M)|n|^2 over positive norms, proven as a polynomial identity for symbolic samples); transform_points is exactly p -> M.p + t in 2D / 3D (so composition and inverse laws hold in exact arithmetic for point-like kinds); apply_translation / apply_scale build exactly [I|t] / diag(s,1) and funnel through apply_transform; mesh / point cloud / path store transform_points(own points, M); faces are re-wound exactly under flips_winding(M) (and linear part != I); shortcuts test the whole matrix at <= 1e-8 with a max-norm allclose; scene / voxel / primitive left-multiply; under a scaling matrix every primitive size parameter is multiplied by s and the stored transform satisfies T'.(s p) == M.T.p for every local point; a transform writes positions, winding and centre of mass only; no memo entry that depends on what moved survives. Floating-point closeness, volume / area / inertia scaling values (C03) and primitive re-parameterisation under scale (C15) are not decided.",
     "Trusted: E1 effect model, E3 transfer functions (sa/alg.py), sympy expand / simplify, canonicalisation in sa/provenance.py, the reviewed invariance / transport tables of C01 and C14, the whitelist of max-norm forms for util.allclose (an unknown form is an analysis error, not a verdict).",
     "DESIGN.md#c04",
 )
